@@ -486,7 +486,7 @@ pub fn run(mut rep: Report) -> ! {
     let thorough = !rep.quick();
     // (process creation does not scale beyond ~90 runs/s on this machine, whatever the number of workers)
     rep.workers = rep.workers.min(4);
-    let n = rep.n(24, 3_000);
+    let n = rep.n(24, 1_500);
     rep.random("fault-enumeration", n, 96, move |src| scenario_case(src, &root, thorough));
     drop(scratch);
     rep.finish()
